@@ -136,6 +136,7 @@ func (m *w2mon) onCompleteC(n *RecvNode, path string) {
 
 func (m *w2mon) onScanListingC(d *gkDeco, list []*sts.Partial) {
 	s := m.s
+	s.c05Listing(d, list)
 	if !s.on("C09", "C06") {
 		return
 	}
